@@ -697,6 +697,30 @@ class Gen:
         self.fns[name] = {"ps": ps, "pts": pts, "rt": rt, "b": block(ss, e)}
         self.scopes = []
 
+    def gen_filtermap(self, name):
+        """filtermap name(p..) { stmts; if c { accept e } ...; reject e2 }  (a function returning Verdict[A, R])"""
+        r = self.r
+        ta = r.choice([t for t in self.scalar_tys() if t not in FLOAT_TYS] or ["i32"])
+        tr_ = r.choice([t for t in self.scalar_tys() if t not in FLOAT_TYS] or ["i32"])
+        pts = [self.random_ty(0) for _ in range(r.randint(0, 2))]
+        ps = [self.fresh("p") for _ in pts]
+        self.scopes = [list(zip(ps, pts))]
+        self.cur_rt = None
+        self.in_opt_fn = False
+
+        def verdict(form):
+            t = ta if form == "accept" else tr_
+            return {"k": "ret", "form": form,
+                    "e": [{"k": "ctor", "en": "Verdict", "v": "Accept" if form == "accept" else "Reject", "args": [self.expr(t, 1, True)]}]}
+        ss = self.stmts(r.randint(0, 2), 1)
+        for _ in range(r.randint(0, 2)):
+            ss.append(if_(self.expr("bool", 1), block([verdict(r.choice(["accept", "reject"]))])))
+            ss += self.stmts(r.randint(0, 1), 1)
+        last = verdict(r.choice(["accept", "reject"]))
+        self.fns[name] = {"ps": ps, "pts": pts, "rt": "unit", "b": block(ss, last), "kind": "filtermap", "special": True,
+                          "verdict": [ta, tr_]}
+        self.scopes = []
+
     def gen_rec_fn(self, name):
         """fn name(n: u8, acc: T) -> T { if n == 0 { acc } else { name(n - 1, <step>) } }"""
         t = self.r.choice([x for x in self.scalar_tys() if x in INT_TYS] or ["i32"])
@@ -726,12 +750,22 @@ class Gen:
         rec_t = None
         if self.has("calls") and self.has("recfn") and r.random() < 0.4:
             rec_t = self.gen_rec_fn("rec0")
+        if self.has("filtermap") and r.random() < 0.6:
+            self.gen_filtermap("fm0")
         mrt = r.choice(self.scalar_tys() + ["unit"])
         ps = []
         self.scopes = [[]]
         self.cur_rt = mrt
         self.in_opt_fn = False
         ss = self.stmts(r.randint(2, 5), self.size)
+        if "fm0" in self.fns:
+            fm = self.fns["fm0"]
+            ta, tr_ = fm["verdict"]
+            a, b = self.fresh("m"), self.fresh("m")
+            call = {"k": "call", "f": "fm0", "args": [self.expr(t, 1, True) for t in fm["pts"]]}
+            ss.append({"k": "match", "e": call, "arms": [
+                {"v": "Accept", "bs": [a], "g": [], "b": block([host("emit", ta, self.tag(), [var(a)])])},
+                {"v": "Reject", "bs": [b], "g": [], "b": block([host("emit", tr_, self.tag(), [var(b)]), host("tick", "unit", self.tag(), [])])}]})
         if rec_t is not None:
             n = self.fresh()
             ss.append(let(n, rec_t, {"k": "call", "f": "rec0", "args": [ilit("u8", r.randint(0, 4)), self.leaf(rec_t)]}))
